@@ -558,18 +558,10 @@ theorem scBuild_refused (c : CodecImpl) (ts pi : String) (ba : Int) (x : Frame)
 theorem readReal_build (x : PMInput) (o : PMObject) (h : build x = .ok o) (hel : o.element = "PixelData")
     (hw : CellsWF x) (f : Nat) (hf : f < x.n * x.m) (sel : Selector) :
     readReal o f sel =
-      (select (x.maps (f % x.m)) sel).bind (fun mp => applyOnRead mp ((plane x (f / x.m) (f % x.m)).map cellValue)) := by
+      (select (x.maps (f % x.m)) sel).bind (fun mp => applyMapping mp ((plane x (f / x.m) (f % x.m)).map cellValue)) := by
   unfold readReal
   rw [readStoredFrame_build x o h hel hw f hf, attachedMappings_build x o h f hf]
   rfl
-
-theorem applyOnRead_of_not_single (mp : Mapping) (vals : List Int) (h : mp.singleEntryLut = false) :
-    applyOnRead mp vals = applyMapping mp vals := by
-  unfold applyOnRead; simp [h]
-
-theorem applyOnRead_single (mp : Mapping) (vals : List Int) (h : mp.singleEntryLut = true) :
-    applyOnRead mp vals = .error .type := by
-  unfold applyOnRead; simp [h]
 
 /-- what was selected is one of the mappings -/
 theorem select_mem (ms : List Mapping) (sel : Selector) (mp : Mapping) (h : select ms sel = .ok mp) : mp ∈ ms := by
